@@ -89,7 +89,7 @@ type An struct {
 	prog      *ssa.Program
 	modTypes  []types.Type // every named type of the module, T and *T
 	allFuncs  []*ssa.Function
-	callers   map[*ssa.Function][]*ssa.CallCommon
+	callers   map[*ssa.Function][]ssa.CallInstruction
 	closures  map[*ssa.Function][]*ssa.MakeClosure
 	infos     map[*ssa.Function]*fnInfo
 	notes     []string
@@ -206,8 +206,10 @@ type origin struct {
 }
 
 type octx struct {
-	seen  map[ssa.Value]bool
-	depth int
+	seen   map[ssa.Value]bool
+	depth  int
+	fseen  map[ssa.Value]bool
+	fdepth int
 }
 
 func (a *An) structCells(base ssa.Value, c *octx) []string {
@@ -254,12 +256,8 @@ func (a *An) origins(v ssa.Value, c *octx) []origin {
 			return nil
 		}
 		var res []origin
-		for _, r := range *x.Referrers() {
-			if st, ok := r.(*ssa.Store); ok && st.Val == ssa.Value(x) && st.Addr != ssa.Value(x) {
-				for _, s := range a.cellsOf(st.Addr, c) {
-					res = append(res, origin{s + "*", true})
-				}
-			}
+		for _, s := range a.valueCells(x, c) {
+			res = append(res, origin{s + "*", true})
 		}
 		return res
 	case *ssa.UnOp:
@@ -288,7 +286,11 @@ func (a *An) origins(v ssa.Value, c *octx) []origin {
 		}
 		var res []origin
 		c.depth++
-		for _, cs := range a.callers[fn] {
+		for _, ci := range a.callers[fn] {
+			if ci == nil {
+				continue // invoked as a callback by code outside the module
+			}
+			cs := ci.Common()
 			var arg ssa.Value
 			if cs.IsInvoke() {
 				if idx == 0 {
@@ -342,12 +344,146 @@ func (a *An) origins(v ssa.Value, c *octx) []origin {
 			return res
 		}
 		return a.origins(x.X, c)
-	case *ssa.MakeMap, *ssa.MakeSlice, *ssa.Const, *ssa.MakeChan, *ssa.MakeClosure, *ssa.Function, *ssa.Builtin:
+	case *ssa.MakeMap, *ssa.MakeSlice:
+		// a fresh map / slice: named by the cells it is (later) stored in, if any (pre-publication writes)
+		var res []origin
+		for _, s := range a.valueCells(v, c) {
+			res = append(res, origin{s, false})
+		}
+		return res
+	case *ssa.Const, *ssa.MakeChan, *ssa.MakeClosure, *ssa.Function, *ssa.Builtin:
 		return nil
 	case *ssa.Lookup, *ssa.Next, *ssa.TypeAssert, *ssa.MakeInterface, *ssa.ChangeInterface, *ssa.Convert, *ssa.Index, *ssa.Field, *ssa.BinOp:
 		return []origin{{"?" + typeName(v.Type()), false}}
 	}
 	return []origin{{"?" + typeName(v.Type()), false}}
+}
+
+// valueCells (forward flow): names of the shared cells the value v is (eventually) stored in - directly, through
+// local variables, by being returned to a caller, passed to a module function or captured by a closure.
+func (a *An) valueCells(v ssa.Value, c *octx) []string {
+	if c.fseen == nil {
+		c.fseen = map[ssa.Value]bool{}
+	}
+	if c.fseen[v] || c.fdepth > 6 {
+		return nil
+	}
+	c.fseen[v] = true
+	defer delete(c.fseen, v)
+	refs := v.Referrers()
+	if refs == nil {
+		return nil
+	}
+	var res []string
+	for _, r := range *refs {
+		switch x := r.(type) {
+		case *ssa.Store:
+			if x.Val != v || x.Addr == v {
+				continue
+			}
+			if al, ok := x.Addr.(*ssa.Alloc); ok {
+				// a local variable: the value lives on in what is loaded from it, and in "C*" if the variable's address escapes to cell C
+				for _, s := range a.valueCells(al, c) {
+					res = append(res, s+"*")
+				}
+				if ar := al.Referrers(); ar != nil {
+					for _, lr := range *ar {
+						if ld, ok := lr.(*ssa.UnOp); ok && ld.Op == token.MUL {
+							res = append(res, a.valueCells(ld, c)...)
+						}
+					}
+				}
+			} else {
+				res = append(res, a.cellsOf(x.Addr, c)...)
+			}
+		case *ssa.Phi, *ssa.ChangeType:
+			res = append(res, a.valueCells(x.(ssa.Value), c)...)
+		case *ssa.Return:
+			fn := x.Parent()
+			idx := -1
+			for i, rv := range x.Results {
+				if rv == v {
+					idx = i
+				}
+			}
+			c.fdepth++
+			for _, ci := range a.callers[fn] {
+				if ci == nil || ci.Value() == nil {
+					continue
+				}
+				if pn := ci.Parent().Name(); pn == "init" || strings.HasPrefix(pn, "init#") {
+					continue // the call made by a package initialiser is a different (earlier) instance of this function
+				}
+				call := ci.Value()
+				if len(x.Results) == 1 {
+					res = append(res, a.valueCells(call, c)...)
+					continue
+				}
+				if cr := call.Referrers(); cr != nil {
+					for _, e := range *cr {
+						if ex, ok := e.(*ssa.Extract); ok && ex.Index == idx {
+							res = append(res, a.valueCells(ex, c)...)
+						}
+					}
+				}
+			}
+			c.fdepth--
+		case ssa.CallInstruction:
+			cc := x.Common()
+			c.fdepth++
+			for _, fn := range a.resolve(cc) {
+				for i, arg := range cc.Args {
+					if arg != v {
+						continue
+					}
+					pi := i
+					if cc.IsInvoke() {
+						pi = i + 1
+					}
+					if pi < len(fn.Params) {
+						res = append(res, a.valueCells(fn.Params[pi], c)...)
+					}
+				}
+			}
+			c.fdepth--
+		case *ssa.MakeClosure:
+			if fn, ok := x.Fn.(*ssa.Function); ok {
+				for i, b := range x.Bindings {
+					if b == v && i < len(fn.FreeVars) {
+						c.fdepth++
+						res = append(res, a.valueCells(fn.FreeVars[i], c)...)
+						c.fdepth--
+					}
+				}
+			}
+		}
+	}
+	return uniq(res)
+}
+
+// callbackArgs: anonymous functions handed to a call as arguments.  They are followed as if called at that point
+// (bbolt's db.Update(func...), sort.Slice(..., func...)), except for run.Group.Add, whose arguments are the
+// goroutine bodies / interrupt callbacks that are listed explicitly as roots.
+func (a *An) callbackArgs(cc *ssa.CallCommon) []*ssa.Function {
+	if strings.HasSuffix(fullCallee(cc), "oklog/run.Group).Add") {
+		return nil
+	}
+	var res []*ssa.Function
+	for _, arg := range cc.Args {
+		var fn *ssa.Function
+		switch x := arg.(type) {
+		case *ssa.MakeClosure:
+			fn, _ = x.Fn.(*ssa.Function)
+		case *ssa.Function:
+			if x.Parent() != nil {
+				fn = x
+			}
+		}
+		if fn != nil && inModuleFn(fn) && len(fn.Blocks) > 0 {
+			res = append(res, fn)
+		}
+	}
+	return res
 }
 
 func (a *An) callOrigins(cc *ssa.CallCommon, idx int, c *octx) []origin {
@@ -408,6 +544,42 @@ func (a *An) contents(m ssa.Value, c *octx) []string {
 		res = append(res, o.cell+"[]")
 	}
 	return uniq(res)
+}
+
+// rawAllocs: the local variables (Allocs) a pointer value may point to (through closure bindings and phis).
+func (a *An) rawAllocs(v ssa.Value, c *octx) []*ssa.Alloc {
+	if c.seen[v] || c.depth > 8 {
+		return nil
+	}
+	c.seen[v] = true
+	defer delete(c.seen, v)
+	switch x := v.(type) {
+	case *ssa.Alloc:
+		return []*ssa.Alloc{x}
+	case *ssa.FreeVar:
+		fn := x.Parent()
+		var res []*ssa.Alloc
+		for i, p := range fn.FreeVars {
+			if p != x {
+				continue
+			}
+			for _, mc := range a.closures[fn] {
+				if i < len(mc.Bindings) {
+					c.depth++
+					res = append(res, a.rawAllocs(mc.Bindings[i], c)...)
+					c.depth--
+				}
+			}
+		}
+		return res
+	case *ssa.Phi:
+		var res []*ssa.Alloc
+		for _, e := range x.Edges {
+			res = append(res, a.rawAllocs(e, c)...)
+		}
+		return res
+	}
+	return nil
 }
 
 func newCtx() *octx { return &octx{seen: map[ssa.Value]bool{}} }
@@ -873,7 +1045,40 @@ func (a *An) analyze(fn *ssa.Function) *fnInfo {
 				}
 				continue
 			}
+			if strings.HasPrefix(fullCallee(cc), "encoding/json.Unmarshal") && len(cc.Args) == 2 {
+				// reflection WRITE through the target pointer: the cell and, for a map / slice target, the contents of
+				// the value that ends up in it
+				target := cc.Args[1]
+				if mi, ok := target.(*ssa.MakeInterface); ok {
+					target = mi.X
+				}
+				cells := a.cellsOf(target, newCtx())
+				add(cells, "W", pos, al, nil, true)
+				var cont []string
+				for _, c := range cells {
+					cont = append(cont, c+"[]")
+				}
+				for _, o := range a.rawAllocs(target, newCtx()) {
+					if ar := o.Referrers(); ar != nil {
+						for _, lr := range *ar {
+							if ld, ok := lr.(*ssa.UnOp); ok && ld.Op == token.MUL {
+								for _, s := range a.valueCells(ld, newCtx()) {
+									cont = append(cont, s+"[]")
+								}
+							}
+						}
+					}
+				}
+				switch deref(target.Type()).Underlying().(type) {
+				case *types.Map, *types.Slice:
+					add(uniq(cont), "W", pos, al, nil, true)
+				}
+				continue
+			}
 			if ts := a.resolve(cc); len(ts) > 0 {
+				inf.calls = append(inf.calls, callInfo{ts, al})
+			}
+			if ts := a.callbackArgs(cc); len(ts) > 0 {
 				inf.calls = append(inf.calls, callInfo{ts, al})
 			}
 		}
@@ -977,7 +1182,7 @@ func main() {
 	prog, spkgs := ssautil.Packages(pkgs, ssa.InstantiateGenerics)
 	prog.Build()
 
-	a := &An{prog: prog, callers: map[*ssa.Function][]*ssa.CallCommon{}, closures: map[*ssa.Function][]*ssa.MakeClosure{},
+	a := &An{prog: prog, callers: map[*ssa.Function][]ssa.CallInstruction{}, closures: map[*ssa.Function][]*ssa.MakeClosure{},
 		infos: map[*ssa.Function]*fnInfo{}, noteSeen: map[string]bool{}, implCache: map[string][]*ssa.Function{},
 		made: map[string][]types.Type{}, flows: map[string][]string{}, flowCache: map[string]map[string]types.Type{}}
 	byName := map[string]*ssa.Function{}
@@ -1038,7 +1243,10 @@ func main() {
 				}
 				if cc != nil {
 					for _, t := range a.resolve(cc) {
-						a.callers[t] = append(a.callers[t], cc)
+						a.callers[t] = append(a.callers[t], instr.(ssa.CallInstruction))
+					}
+					for _, t := range a.callbackArgs(cc) {
+						a.callers[t] = append(a.callers[t], nil)
 					}
 				}
 			}
